@@ -25,7 +25,29 @@ func init() {
 		for _, n := range c.Writes {
 			total += n
 		}
-		if r.Intn(5) == 0 && total >= 2 {
+		if r.Intn(8) == 0 {
+			// a writer far ahead of the storing side: megabytes handed to Write while the storing
+			// goroutine has hardly started - and, most of the time, is about to fail
+			c.Writes = nil
+			total = 0
+			for i := 0; i < 2+r.Intn(4); i++ {
+				n := 300_000 + r.Intn(900_000)
+				c.Writes = append(c.Writes, n)
+				total += n
+			}
+			switch r.Intn(4) {
+			case 0:
+				c.Key = "" // refused up front (the refusal reaches the writer through the pipe)
+				c.Prev = -1
+			case 1:
+			default:
+				c.NoRoom = true
+				for range c.World.Roots {
+					room := int64(1 + r.Intn(200_000))
+					c.Caps = append(c.Caps, RootSpec{Reported: room, Real: room, Partial: r.Intn(2) == 0})
+				}
+			}
+		} else if r.Intn(5) == 0 && total >= 2 {
 			// no root has room for the content: storing must fail and the key keep its value.
 			// Caps holds, per root, the room left beyond what it already stores (0 < room < total).
 			c.NoRoom = true
@@ -110,7 +132,9 @@ func init() {
 			idx.add(refmodel.Val{ID: 1000, Size: c.Prev})
 			switch {
 			case e == nil:
-				if c.NoRoom && len(want) > 0 {
+				if c.Key == "" {
+					fail("error-class", "rejection-swallowed", "Create with an empty key: Write* and Close returned nil")
+				} else if c.NoRoom && len(want) > 0 {
 					// (allowed only if the content really fitted; capacities were chosen so that it does not)
 					fail("error-class", "no-room-swallowed", "no root has room for the content, yet Write* and Close returned nil")
 				} else if gerr != nil {
@@ -119,6 +143,13 @@ func init() {
 					fail("partial-or-mixed-content", "truncated-or-garbled", fmt.Sprintf("Close returned nil; Get returns %d bytes (%s), the writes %v concatenate to %d bytes", len(got), idx.describe(got), c.Writes, len(want)))
 				}
 			default:
+				if c.Key == "" {
+					faults["storing-refused-empty-key"]++
+					if cl := classOf(e); cl != "ErrEmptyKey" {
+						fail("error-class", "wrong-class", fmt.Sprintf("the key is empty; Write/Close returned class %q (%v), want ErrEmptyKey", cl, e))
+					}
+					break
+				}
 				if c.NoRoom {
 					faults["storing-failed-no-room"]++
 					if cl := classOf(e); cl != "ErrNoFreeSpace" {
